@@ -40,6 +40,9 @@ def builder_rejects_zero_first_ttl(prog):
 def run(chk, tier):
     prog = program(crates=('core',))
     chk.explanation = __doc__
+    # the reported path length is target_ttl when known: its transition table is C03.R4 (imported)
+    from ..report import run_sub
+    run_sub(chk, 'c03', 'C03.', {'R4'})
     cg = CallGraph(prog)
     for r, d, fl in (('R1', 'the per-flow map always holds the default flow; flows are only added', 3), ('R2', 'lowest/highest ttl bookkeeping', 4),
                      ('R3', 'largest_ttl decision table of publish_trace', 3), ('R4', 'reader / updater panic audit under the stated invariants', 8), ('R4t', 'loops terminate', 0)):
